@@ -88,7 +88,10 @@ def _run(mod, prop, tier, seed, replay, jobs, tmp, t0):
         # pinned witnesses of open findings, replayed under the same monitors
         for f in wit:
             s = dict(f.get('spec') or {})
-            s.update({'kind': 'replay', 'cases': [f['witness']], 'seed': seed, 'tier': tier, 'witness_of': f['id']})
+            w = (f.get('witness_by_property') or {}).get(prop, f['witness'] if f['properties'][0] == prop else None)
+            if w is None:
+                continue
+            s.update({'kind': 'replay', 'cases': [w], 'seed': seed, 'tier': tier, 'witness_of': f['id']})
             specs.insert(0, s)
     for s in specs:
         s.setdefault('tier', tier)
